@@ -45,7 +45,7 @@ Definition spec_ok (c : ccase) : bool :=
       config_initial_ok su res init &&
       ((negb (res =? 0)) ||
        (stores_verified (su_p su) init st && observed_installed init st
-        && rejected_unchanged init st && error_events_ok init st
+        && rejected_unchanged init st && error_events_ok init st && blocking_answered st
         && (p_skip_initial (su_p su) || p_delay (su_p su) || verify3 (snd (o_val init)))))
   end.
 
